@@ -101,6 +101,24 @@ def events(ctx: Ctx) -> None:
             if not ok:
                 continue
             K = ks.pop()
+            # the dispatch is unconditional inside the consuming loop, except for "callbacks
+            # were given" (`callbacks is not None` / truthiness), with the right polarity
+            extra = []
+            for t, pol, b in cfg.branch_conditions(cfg.node_of(D[0])):
+                if not cfg.in_loop(b, K):
+                    continue
+                for fact, fp in conjuncts(t, pol):
+                    names = {x.id for x in ast.walk(fact) if isinstance(x, ast.Name)}
+                    if names <= {"callbacks"} and names:
+                        given = None
+                        if isinstance(fact, ast.Name):
+                            given = fp
+                        elif isinstance(fact, ast.Compare) and isinstance(fact.comparators[0], ast.Constant) and fact.comparators[0].value is None:
+                            given = fp if isinstance(fact.ops[0], ast.IsNot) else (not fp) if isinstance(fact.ops[0], ast.Is) else None
+                        if given is True:
+                            continue
+                    extra.append(("" if fp else "not ") + unparse(fact, 40))
+            ctx.ob(f, D[0], not extra, f"[{kind}] the task-end dispatch runs for every consumed result whenever callbacks are given" + ("" if not extra else f" — it is conditional on `{extra[0]}`"), sel=f"{kind}:task-end-unconditional")
             S = _calls_in_loop(repo, f, cfg, L, OP_START)
             E = _calls_in_loop(repo, f, cfg, L, OP_END)
             ctx.ob(f, S[0] if S else ln.stmt, len(S) == 1, f"[{kind}] exactly one operation-start call site per operation (found {len(S)})", sel=f"{kind}:start-count")
@@ -590,8 +608,13 @@ def barrier_src(ctx: Ctx) -> None:
                 calls_skip = any(isinstance(c, ast.Call) and SKIP_NODE in repo.callee_quals(c, v) for c in ast.walk(t))
                 if calls_skip and not pol:
                     continue
-                if isinstance(t, ast.Compare) and "len(" in unparse(t):
-                    continue
+                if isinstance(t, ast.Compare) and "len(" in unparse(t) and len(t.ops) == 1 and isinstance(t.comparators[0], ast.Constant):
+                    # "the generation is not empty", with the right polarity
+                    k_ = t.comparators[0].value
+                    nonempty = (isinstance(t.ops[0], ast.Gt) and k_ == 0) or (isinstance(t.ops[0], ast.GtE) and k_ == 1) or (isinstance(t.ops[0], ast.NotEq) and k_ == 0)
+                    empty = (isinstance(t.ops[0], ast.Eq) and k_ == 0) or (isinstance(t.ops[0], ast.Lt) and k_ == 1) or (isinstance(t.ops[0], ast.LtE) and k_ == 0)
+                    if (nonempty and pol) or (empty and not pol):
+                        continue
                 extra.append(("" if pol else "not ") + unparse(t))
             # comprehension filters inside the yielded value's definition
             for nm in ast.walk(y.value) if y.value is not None else []:
@@ -746,6 +769,16 @@ def plan_edges(ctx: Ctx) -> None:
         ctx.ob(new, c, not extra, "no filter on the source edges other than `hasattr(x, 'name')`" + ("" if not extra else f" — {extra}"), sel="edges:sources-unfiltered")
     out_edges = [c for c in edges if c not in src_edges]
     ctx.ob(new, None, len(out_edges) >= 2, "Plan._new adds op → output edges (single and multiple outputs)", sel="edges:outputs")
+    # every array node created here is attached to the operation node created here
+    from .runtime import _block_of
+
+    op_vars = {unparse(c.args[0]) for c in new.own_nodes() if isinstance(c, ast.Call) and isinstance(c.func, ast.Attribute) and c.func.attr == "add_node" and c.args and isinstance(kwarg(c, "type"), ast.Constant) and kwarg(c, "type").value == "op"}
+    for c in [c for c in new.own_nodes() if isinstance(c, ast.Call) and isinstance(c.func, ast.Attribute) and c.func.attr == "add_node" and c.args and isinstance(kwarg(c, "type"), ast.Constant) and kwarg(c, "type").value == "array"]:
+        st_ = cfg.nodes[cfg.node_of(c)].stmt
+        blk = _block_of(new, st_)
+        a0 = unparse(c.args[0])
+        ok = any(isinstance(x, ast.Call) and isinstance(x.func, ast.Attribute) and x.func.attr == "add_edge" and len(x.args) == 2 and unparse(x.args[0]) in op_vars and unparse(x.args[1]) == a0 for b_ in blk for x in ast.walk(b_))
+        ctx.ob(new, c, ok, f"the array node `{a0}` gets an edge from the operation that produces it, in the same block" + ("" if ok else " — missing: the array has no producer in the graph, so its consumers are not ordered after the operation that writes it"), sel=f"edges:output:{ctx.anon(new, c.args[0], 20)}:{'loop' if cfg.nodes[cfg.node_of(c)].loops else 'single'}:{len([1 for t, pol in facts_at(cfg, cfg.node_of(c)) if pol])}")
     for q in (f"{A.OPS}.blockwise", f"{A.OPS}._general_blockwise"):
         f = repo.get(q)
         fl = flow_of(repo, f)
